@@ -19,6 +19,8 @@ pub struct GenCfg {
     pub defaults: bool,
     pub values: bool,
     pub imports: bool,
+    /// percentage of references to imported types written as external references `Module.Type`
+    pub qualified_refs_pct: u32,
     pub recursion: bool,
     pub any: bool,
     pub set_types: bool,
@@ -93,6 +95,7 @@ impl Default for GenCfg {
             defaults: true,
             values: true,
             imports: true,
+            qualified_refs_pct: 0,
             recursion: true,
             any: false,
             set_types: true,
@@ -1447,6 +1450,28 @@ impl<'s, 'a> Gen<'s, 'a> {
                 })
                 .collect();
         }
+        // external references: `Module.Type` for some references to imported types (the IMPORTS
+        // clause keeps listing the symbol, as X.680 requires the module to be referenced there)
+        if self.cfg.qualified_refs_pct > 0 {
+            let names: Vec<String> = modules.iter().map(|m| m.name.clone()).collect();
+            for mi in 0..nm {
+                let mut items = std::mem::take(&mut modules[mi].items);
+                for it in items.iter_mut() {
+                    if let Item::Type { ty, .. } = it {
+                        let mut choose = |name: &str| -> Option<String> {
+                            let d = self.scope.get(name)?;
+                            if d.module != mi && self.src.chance(self.cfg.qualified_refs_pct) {
+                                Some(names[d.module].clone())
+                            } else {
+                                None
+                            }
+                        };
+                        qualify_refs(ty, &mut choose);
+                    }
+                }
+                modules[mi].items = items;
+            }
+        }
         // source order is independent of rank: rotate / reverse items
         for m in modules.iter_mut() {
             match self.src.pick(3) {
@@ -1532,6 +1557,36 @@ pub fn for_each_comp<'a>(ty: &'a Ty, f: &mut dyn FnMut(&'a Comp)) {
             }
         }
         Ty::SeqOf(o) | Ty::SetOf(o) => for_each_comp(&o.elem, f),
+        _ => {}
+    }
+}
+
+/// rewrite references chosen by `choose` into external references
+pub fn qualify_refs(ty: &mut Ty, choose: &mut dyn FnMut(&str) -> Option<String>) {
+    match ty {
+        Ty::Ref { module, name, .. } => {
+            if module.is_none() {
+                *module = choose(name);
+            }
+        }
+        Ty::Sequence(Fields { root, ext }) | Ty::Set(Fields { root, ext }) | Ty::Choice(Alts { root, ext }) => {
+            for c in root.iter_mut() {
+                qualify_refs(&mut c.ty, choose);
+            }
+            if let Some(adds) = ext {
+                for a in adds.iter_mut() {
+                    match a {
+                        Addition::Comp(c) => qualify_refs(&mut c.ty, choose),
+                        Addition::Group { comps, .. } => {
+                            for c in comps.iter_mut() {
+                                qualify_refs(&mut c.ty, choose);
+                            }
+                        }
+                    }
+                }
+            }
+        }
+        Ty::SeqOf(o) | Ty::SetOf(o) => qualify_refs(&mut o.elem, choose),
         _ => {}
     }
 }
